@@ -4,7 +4,7 @@ from __future__ import annotations
 
 from typing import List, Optional, Union
 
-from vf.cond import cond
+from vf.cond import HarnessAbort, cond
 
 from .common import (
     STUB_STRICT_INIT,
@@ -686,5 +686,5 @@ def source_outcome(src: str):
 )
 def d_source_symbolic(p: int, suffix: str, N: int, ALPHA: str) -> bool:
     if _STANDIN_VALIDATION is not None:
-        return False
+        raise HarnessAbort(f"lexer pattern stand-in differs from the compiled pattern: {_STANDIN_VALIDATION}")
     return source_outcome(PREFIXES[p] + suffix)
